@@ -784,13 +784,13 @@ func extErrorsIs(fr *frame, args []value) value {
 			}
 		}
 		// Is method?
-		if m := fr.i.prog.LookupMethod(err.t, nil, "Is"); m != nil && m.Signature.Params().Len() == 1 {
+		if m := fr.i.findMethod(err.t, "Is"); m != nil && m.Signature.Params().Len() == 1 {
 			r := call(fr.i, fr, 0, m, []value{err.v, target})
 			if b, ok := r.(bool); ok && b {
 				return true
 			}
 		}
-		um := fr.i.prog.LookupMethod(err.t, nil, "Unwrap")
+		um := fr.i.findMethod(err.t, "Unwrap")
 		if um == nil || um.Signature.Results().Len() != 1 {
 			return false
 		}
@@ -827,7 +827,7 @@ func extTimeNow(fr *frame, args []value) value {
 
 func (i *interpreter) errorString(e iface) string {
 	defer func() { recover() }()
-	if m := i.prog.LookupMethod(e.t, nil, "Error"); m != nil {
+	if m := i.findMethod(e.t, "Error"); m != nil {
 		r := call(i, nil, 0, m, []value{e.v})
 		return toString(r)
 	}
